@@ -278,6 +278,7 @@ func parseScript(toks []string) []readStep {
 func (r *rng) readScript(doc []byte, bufsize int) []readStep {
 	var steps []readStep
 	mode := r.n(3)
+	empties := r.chance(1, 4)
 	for i := 0; i < len(doc); {
 		n := bufsize
 		switch mode {
@@ -291,6 +292,9 @@ func (r *rng) readScript(doc []byte, bufsize int) []readStep {
 		}
 		steps = append(steps, readStep{data: doc[i : i+n]})
 		i += n
+		if empties && r.chance(1, 4) {
+			steps = append(steps, readStep{}) // a Read returning (0, nil)
+		}
 	}
 	if len(steps) > 0 && r.bool() {
 		steps[len(steps)-1].eof = true
